@@ -25,7 +25,7 @@ CTX_TABLES = ['tbl_is_virama', 'tbl_is_greek', 'tbl_is_hebrew', 'tbl_is_hiragana
               'tbl_is_dual_joining', 'tbl_is_left_joining', 'tbl_is_right_joining', 'tbl_is_transparent']
 
 KANI = {
-    'C01': [K('precis-core', CC + 'partial_cmp_total'), K('precis-core', 'stringclasses::verif_kani::non_scalar_never_valid', False),
+    'C01': [K('precis-core', CC + 'partial_cmp_total'),
             K('precis-profiles', 'usernames::verif_kani::width_values_scalar')],
     'C02': [K('precis-core', 'context::verif_kani::registry'), K('precis-core', 'context::verif_kani::registry_distinct'),
             K('precis-core', CC + 'registry_matches_contextual')] + [K('precis-core', CC + t) for t in CTX_TABLES],
@@ -39,8 +39,7 @@ KANI = {
     'C11': [K('precis-profiles', 'usernames::verif_kani::tbl_width'), K('precis-profiles', 'usernames::verif_kani::width_values_scalar'),
             K('precis-profiles', 'usernames::verif_kani::width_idempotent')],
     'C12': [K('precis-profiles', 'common::verif_kani::tbl_zs'), K('precis-profiles', 'common::verif_kani::zs_space')],
-    'C14': [K('precis-core', CC + t) for t in CORE_TABLES_QUICK] + [K('precis-core', CC + t, False) for t in CORE_TABLES_SLOW]
-           + [K('precis-core', 'stringclasses::verif_kani::non_scalar_never_valid', False)],
+    'C14': [K('precis-core', CC + t) for t in CORE_TABLES_QUICK] + [K('precis-core', CC + t, False) for t in CORE_TABLES_SLOW],
     # end-to-end for the two pinned data sets: files -> parse -> generate -> emit -> compile -> lookup == UCD oracle
     'C15': [K('precis-profiles', 'common::verif_kani::tbl_zs'), K('precis-profiles', 'usernames::verif_kani::tbl_width'),
             K('precis-core', CC + 'tbl_is_hebrew'), K('precis-core', CC + 'tbl_is_virama')]
